@@ -265,12 +265,26 @@ def condFallback (rd : RData) (d : Nat) (ie : Bool) (info : Info) (elsEmpty : Bo
       let elsePart := if elsEmpty then [e] else [ofLines (indentLines d rd.mid), e]
       joinRes (header :: body :: (elsePart ++ [ofLines (indentLines d rd.ftr)]))
 
+/-- the `INVALID_CHILDREN` branches of `visit_Loop` / `visit_Conditional` (block form): header, `ELSE` and footer lines are taken
+from the source text, `Bv` / `Ev` are the visited `body` / `else_body` -/
+def recover (info : Info) (s : Src) (elsEmpty : Bool) (ie : Bool) (Bv Ev : Res) : Res :=
+  match info.kind with
+  | .loop => joinRes [.none, lineAt s.text 0, Bv, lineAt s.text (s.l1 - s.l0), .none]
+  | _ =>
+    let header := lineAt s.text 0
+    if info.elseif then
+      -- `self.visit(o.else_body, is_elseif=True, **kwargs)`: a second `is_elseif` when `kwargs` already has one
+      if ie then (match firstErr [header, Bv] with | some e => .err e | none => .err "typeerror")
+      else joinRes [header, Bv, Ev]
+    else
+      let elsePart := if elsEmpty then [Ev] else [elseLine s.text, Ev]
+      joinRes (header :: Bv :: (elsePart ++ [lineAt s.text (s.l1 - s.l0)]))
+
 /-- one level of the conservative visitor: `B d' ie'` / `E d' ie'` are the visits of `o.body` / `o.else_body` at depth `d'`
 with `is_elseif=ie'` in `kwargs` -/
 def assemble (R : Render) (d : Nat) (ie : Bool) (info : Info) (src : Option Src) (elsEmpty : Bool)
     (B E : Nat → Bool → Res) : Res :=
   let rd := R info.lbl
-  let st := src.map (·.status)
   match info.kind with
   | .call | .decl | .imprt =>
     match src with
@@ -300,29 +314,20 @@ def assemble (R : Render) (d : Nat) (ie : Bool) (info : Info) (src : Option Src)
     match src with
     | some s =>
       if s.status = .valid then .some s.text
-      else if s.status = .ichildren then
-        joinRes [.none, lineAt s.text 0, B (d + loopIndent) ie, lineAt s.text (s.l1 - s.l0), .none]
+      else if s.status = .ichildren then recover info s elsEmpty ie (B (d + loopIndent) ie) .none
       else joinRes [.none, ofLines (indentLines d rd.hdr), B (d + loopIndent) ie, ofLines (indentLines d rd.ftr), .none]
     | none => joinRes [.none, ofLines (indentLines d rd.hdr), B (d + loopIndent) ie, ofLines (indentLines d rd.ftr), .none]
   | .scoped | .iother =>
     joinRes [ofLines (indentLines d rd.hdr), B (d + rd.bind) ie, ofLines (indentLines d rd.ftr)]
   | .cond =>
-    if st = some .valid then
-      match src with
-      | some s => .some s.text
-      | none => .err "impossible"
-    else if st = some .ichildren && !info.inline then
-      match src with
-      | none => .err "impossible"
-      | some s =>
-        let header := lineAt s.text 0
-        let body := B (d + conditionalIndent) ie
-        if info.elseif then joinRes [header, body, E d true]
-        else
-          let e := E (d + conditionalIndent) ie
-          let elsePart := if elsEmpty then [e] else [elseLine s.text, e]
-          joinRes (header :: body :: (elsePart ++ [lineAt s.text (s.l1 - s.l0)]))
-    else condFallback rd d ie info elsEmpty B E
+    match src with
+    | some s =>
+      if s.status = .valid then .some s.text
+      else if s.status = .ichildren && !info.inline then
+        recover info s elsEmpty ie (B (d + conditionalIndent) ie)
+          (if info.elseif then (if ie then .none else E d true) else E (d + conditionalIndent) ie)
+      else condFallback rd d ie info elsEmpty B E
+    | none => condFallback rd d ie info elsEmpty B E
 
 mutual
 /-- `FortranCodegenConservative.visit(o)` at `self.depth = d` with `is_elseif = ie` in `kwargs` -/
